@@ -431,9 +431,14 @@ func (g *Gen) cutLoop(fr *frame, li *loopInfo, st *State, order []*ssa.BasicBloc
 		recs := comps[k]
 		srt := g.compSort[k]
 		cur := g.compTerm(h, k, srt)
-		narrow := strings.HasPrefix(srt, "(Array Int ") && !strings.HasPrefix(k, "V|")
+		narrow := strings.HasPrefix(srt, "(Array Int ") && !strings.HasPrefix(k, "V|") && !strings.HasPrefix(k, "G|")
 		var objs []string
+		freshWrites := false
 		for _, r := range recs {
+			if !r.whole && r.obj != "" && g.loopFreshObj(r.obj) {
+				freshWrites = true
+				continue
+			}
 			if r.whole || r.obj == "" || !g.preLoopTerm(r.obj, comps, h) {
 				narrow = false
 				break
@@ -453,6 +458,13 @@ func (g *Gen) cutLoop(fr *frame, li *loopInfo, st *State, order []*ssa.BasicBloc
 			t := cur
 			for _, o := range objs {
 				t = smtSto(t, o, g.fresh("hv."+k, inner))
+			}
+			if freshWrites {
+				// objects allocated inside the loop may hold anything; older objects keep their contents
+				nv := g.fresh("hv.C."+k, srt)
+				o := g.freshName("o")
+				g.addCons(fmt.Sprintf("(forall ((%s Int)) (! (=> (<= %s %s) (= (select %s %s) (select %s %s))) :pattern ((select %s %s))))", o, o, st.alloc, nv, o, t, o, nv, o))
+				t = nv
 			}
 			h.comps[k] = t
 		} else {
@@ -477,6 +489,18 @@ func (g *Gen) cutLoop(fr *frame, li *loopInfo, st *State, order []*ssa.BasicBloc
 }
 
 var freshRe = regexp.MustCompile(`!(\d+)`)
+
+// loopFreshObj: the term is an object allocated during the dry pass of the loop body.
+func (g *Gen) loopFreshObj(t string) bool {
+	if !strings.HasPrefix(t, "obj!") {
+		return false
+	}
+	var n int
+	if _, err := fmt.Sscan(t[4:], &n); err != nil {
+		return false
+	}
+	return n > g.loopWatermark
+}
 
 // preLoopTerm: the term mentions only symbols created before the watermark and no havocked component.
 func (g *Gen) preLoopTerm(t string, comps map[string][]writeRec, st *State) bool {
@@ -825,6 +849,18 @@ func (g *Gen) execInstr(fr *frame, st *State, in ssa.Instruction) {
 		if i.Heap {
 			o := g.newObject(st)
 			pv := &Value{T: i.Type(), L: []string{o}}
+			if at, ok := types.Unalias(t).Underlying().(*types.Array); ok && g.W.shapes.shape(t)[0].Kind != "arr" {
+				// array of composite elements: lives in the element components, zero initialised
+				for _, l := range g.W.shapes.shape(at.Elem()) {
+					key := g.elemCompKey(at.Elem(), l.Path)
+					srt := arrSort(sInt, arrSort(sInt, l.Sort))
+					c := g.compTerm(st, key, srt)
+					g.setComp(st, key, srt, smtSto(c, o, fmt.Sprintf("((as const (Array Int %s)) %s)", l.Sort, zeroTerm(l.Sort))))
+					g.logWrite(key, o)
+				}
+				fr.regs[i] = pv
+				return
+			}
 			lv := g.lvOf(fr, st, pv)
 			g.store(st, lv, g.zeroValue(t))
 			fr.regs[i] = pv
@@ -1269,7 +1305,10 @@ func (g *Gen) indexAddr(fr *frame, st *State, i *ssa.IndexAddr) {
 		}
 		g.guard(fr, st, "index", what, fmt.Sprintf("(and (<= 0 %s) (< %s %d))", idx, idx, arr.Len()))
 		sh := g.W.shapes.shape(u.Elem())
-		if len(sh) == 1 && sh[0].Kind == "arr" {
+		if base.Kind == lvBox && base.Path == "" && !(len(sh) == 1 && sh[0].Kind == "arr") {
+			// heap array of composite elements
+			fr.regs[i] = &Value{T: i.Type(), L: []string{"?elem"}, LV: &LValue{Kind: lvElem, Obj: base.Obj, Idx: idx, Root: arr.Elem(), T: arr.Elem()}}
+		} else if len(sh) == 1 && sh[0].Kind == "arr" {
 			if base.Kind == lvBox && base.Path == "" {
 				// heap array object: lives in the element component
 				fr.regs[i] = &Value{T: i.Type(), L: []string{"?elem"}, LV: &LValue{Kind: lvElem, Obj: base.Obj, Idx: idx, Root: arr.Elem(), T: arr.Elem()}}
@@ -1344,7 +1383,7 @@ func (g *Gen) sliceOp(fr *frame, st *State, i *ssa.Slice) {
 		g.guard(fr, st, "slice", what, fmt.Sprintf("(and (<= 0 %s) (<= %s %s) (<= %s %s))", lo, lo, hi, hi, n))
 		base := g.lvOf(fr, st, x)
 		sh := g.W.shapes.shape(u.Elem())
-		if base.Kind == lvBox && base.Path == "" && len(sh) == 1 && sh[0].Kind == "arr" {
+		if base.Kind == lvBox && base.Path == "" {
 			fr.regs[i] = &Value{T: i.Type(), L: []string{base.Obj, lo, minus(hi, lo), minus(n, lo)}}
 			return
 		}
